@@ -237,7 +237,9 @@ static void *s_thread(void *arg)
 		usim_trace("op %d.%d %s", me, i, opname[op->kind]);
 		if (mode == M_RCU && F->is_qsbr)
 			F->thread_online();
+		op_stall_begin(op);
 		do_op(me, op);
+		op_stall_end();
 		if (mode == M_RCU && F->is_qsbr)
 			F->thread_offline();
 	}
@@ -285,6 +287,7 @@ void scen_stacks(void)
 			uint32_t r = rnd(100);
 			op->v = id++;
 			op->b = rnd(2);
+			op_stall_gen(op, 5, 8);
 			if (!may_pop) op->kind = r < 80 ? OP_PUSH : OP_EMPTY;
 			else if (r < 38) op->kind = OP_PUSH;
 			else if (r < 58) op->kind = OP_POP;
